@@ -2,6 +2,7 @@
 import logging
 import os
 import random
+import shutil
 import sys
 import threading
 
@@ -131,6 +132,8 @@ def run_seq(sh, s, d, case):
     for i in range(nops):
         k = rnd.choice(['alloc'] * 5 + ['alloc-store'] * 3 + ['foreign'] * 3 + ['abort', 'reopen', 'undo-create', 'pack', 'hostile', 'hostile',
                         'foreign-inflight', 'foreign-inflight'])
+        if kind == 'file' and random.Random(s * 37 + i).random() < 0.08:
+            k = 'crash'              # (drawn apart: the sequence of the other draws stays what it was)
         if k in ('alloc', 'alloc-store', 'abort'):
             n = rnd.choice([1, 1, 2, 5])
             got = []
@@ -259,6 +262,46 @@ def run_seq(sh, s, d, case):
             sh.count('reopens')
             nontrivial = True
             trace.append('reopen')
+        elif k == 'crash' and kind == 'file':
+            # the process dies with a transaction in flight (stored only / voted: the file then ends with a complete record
+            # whose checkpoint flag is still set / voted and the tail torn); the history goes on in a copy of the data file as
+            # it was at that instant, with or without the (possibly stale) index file
+            phase = rnd.choice(['stored', 'voted', 'voted', 'voted-torn'])
+            t = TransactionMetaData(b'', b'in flight at the crash')
+            st.tpc_begin(t)
+            for _ in range(rnd.choice([1, 3])):
+                o = st.new_oid()
+                sh.count('new_oid_calls_checked')
+                if o in present:
+                    sh.violation('c20:%s:issued-id-identifies-a-stored-object' % kind,
+                                 {'oid': o, 'uncreated': present[o] is None, 'in_base': False, 'trace': trace}, case)
+                    return None
+                issued.add(o)
+                st.store(o, z64, objs.cell_record('in flight ' * rnd.randrange(1, 20)), '', t)
+            if phase != 'stored':
+                st.tpc_vote(t)
+            st._file.flush()
+            crash_n = len([x for x in trace if x.startswith('crash')])
+            d2 = os.path.join(d, 'crash%d' % crash_n)
+            os.makedirs(d2)
+            with open(path, 'rb') as f:
+                img = f.read()
+            if phase == 'voted-torn':
+                img = img[:len(img) - rnd.randrange(1, 30)]
+            with open(os.path.join(d2, 'Data.fs'), 'wb') as f:
+                f.write(img)
+            with_index = os.path.exists(path + '.index') and rnd.random() < 0.5
+            if with_index:
+                shutil.copy(path + '.index', os.path.join(d2, 'Data.fs.index'))
+            st.tpc_abort(t)
+            st.close()
+            path = os.path.join(d2, 'Data.fs')
+            st = mk()
+            issued = set()           # new session
+            sh.count('reopens')
+            sh.count('reopens_of_a_crash_state_with_a_transaction_in_flight')
+            nontrivial = True
+            trace.append('crash(%s%s)' % (phase, ',index' if with_index else ''))
         elif k == 'pack' and kind == 'file':
             try:
                 st.pack(1e11, referencesf, gc=False)
